@@ -124,6 +124,13 @@ CHECKS = {
          "labels whose string order differs from the numeric one, dev samples and non-default min_freq_mod.",
     ref="DESIGN.md section 8 C12", technique="Lean 4 proof (naming / class-selection lemmas) + paired runs MulticlassCarver vs one-vs-rest BinaryCarvers",
     note=BASE_NOTE + " Feature/class names making f'{f}_{c}' collide are not generated."),
+ "C19": dict(
+    text="Lean theorems about the model of the guards of fit (in call order, over an abstract description of the call): every call that is malformed in one of the listed ways is "
+         "rejected with AssertionError and never accepted (malformed_rejected), a well-formed call passes every guard (wellformed_accepted), and the refit guard runs first so that a "
+         "rejected call on a fitted object has touched nothing (refit_first). On the code: each malformed class injected at a random position for the three carvers and three "
+         "discretizer classes, on fresh and on fitted objects; exception type, and values_orders / to_json / transform before vs after the rejected call.",
+    ref="DESIGN.md section 8 C19", technique="Lean 4 proof (decision logic of the guard sequence) + fault injection of malformed inputs on the real code",
+    note=BASE_NOTE + " The mapping from a real call to the abstract description is harness code; __init__-time checks (both types, sort_by) are exercised on the code only (partial)."),
 }
 NOT_YET = "check not built yet (construction in progress, see DESIGN.md section 13); will be claimed once its model, theorems and correspondence exist"
 
